@@ -65,6 +65,9 @@ pub assume_specification[ i64::wrapping_neg ](a: i64) -> (r: i64)
 pub assume_specification[ i64::wrapping_pow ](b: i64, e: u32) -> (r: i64)
     ensures r as int == wrap64(pow(b as int, e as nat));
 
+pub assume_specification<T>[ core::mem::replace ](dest: &mut T, src: T) -> (r: T)
+    ensures *final(dest) == src, r == *old(dest);
+
 pub uninterp spec fn spec_powf(b: f64, e: f64) -> f64;
 pub assume_specification[ f64::powf ](b: f64, e: f64) -> (r: f64)
     ensures r == spec_powf(b, e);
